@@ -16,12 +16,75 @@ except Exception:  # reported by regen() as a broken obligation
     _C = {"verified_methods": ["DELETE", "GET", "POST", "PUT"], "maxBytes": 1 << 20,
           "registered_claims": ["aud", "exp", "jti", "iat", "iss", "nbf", "sub"]}
 CHECKED = list(_C["verified_methods"])
-OTHER_METHODS = [m for m in ["PATCH", "HEAD", "OPTIONS", "TRACE", "get", "DELETE", "PUT"] if m not in CHECKED][:5]
+OTHER_METHODS = [m for m in ["PATCH", "HEAD", "OPTIONS", "TRACE", "get", "CONNECT", "PURGE", "options", "DELETE", "PUT"]
+                 if m not in CHECKED][:8]
 STD = {n: i + 1 for i, n in enumerate(_C["registered_claims"])}
 MAXBYTES = _C["maxBytes"]
 ALG = {"HS256": "HS256", "HS384": "HS384", "HS512": "HS512", "none": "ANone", "asym": "AAsym", "unknown": "AUnknown"}
 ALGID = {"HS256": 1, "HS384": 2, "HS512": 3}
 INT_RE = re.compile(r"^-?\d+$")
+
+# ---- the rest of the request: HTTP methods and header fields that SOME layer may special-case ----------------------
+# (BUILDING-ROUND3 classes 13 "names as inputs" and 2 "cross product"; seeded/C18-10).  The gates must give the same
+# answer for every method and whatever else the request carries.
+ROUTER_METHODS = ["GET", "POST", "PUT", "PATCH", "DELETE", "HEAD", "OPTIONS"]     # router.validMethod
+ALL_METHODS = ROUTER_METHODS + ["CONNECT", "TRACE", "PURGE", "options"]           # + a custom one and a case variant
+# fixed identifiers (Model.v: m_options; the verified methods are 1..n): every other method is >= 100002
+METHOD_ID = {"OPTIONS": 100001, "HEAD": 100002, "PATCH": 100003, "CONNECT": 100004, "TRACE": 100005}
+HDR_ID = {"Origin": 1, "Access-Control-Request-Method": 2}                        # Model.v: h_origin, h_acrm
+_TOK = "eyJhbGciOiJIUzI1NiJ9.e30.AAAA"
+XH = {
+    "preflight": [["Origin", "https://app.example"], ["Access-Control-Request-Method", "POST"]],
+    "preflight_h": [["Origin", "https://app.example"], ["Access-Control-Request-Method", "DELETE"],
+                    ["Access-Control-Request-Headers", "authorization, content-type, x-content-security"]],
+    "preflight_null": [["Origin", "null"], ["Access-Control-Request-Method", "OPTIONS"]],
+    "origin_only": [["Origin", "https://app.example"]],
+    "acrm_only": [["Access-Control-Request-Method", "GET"]],
+    "cors_empty": [["Origin", ""], ["Access-Control-Request-Method", ""]],
+    "cors_raw": [["raw:origin", "https://app.example"], ["raw:access-control-request-method", "POST"]],
+    "websocket": [["Upgrade", "websocket"], ["Connection", "Upgrade"], ["Sec-Websocket-Key", "dGhlIHNhbXBsZSBub25jZQ=="],
+                  ["Sec-Websocket-Version", "13"]],
+    "h2c": [["Upgrade", "h2c"], ["Connection", "Upgrade, HTTP2-Settings"], ["Http2-Settings", "AAMAAABkAAQCAAAAAAIAAAAA"]],
+    "sse": [["Accept", "text/event-stream"], ["Content-Type", "text/event-stream"], ["Cache-Control", "no-cache"],
+            ["Last-Event-Id", "7"]],
+    "ctype_json": [["Content-Type", "application/json; charset=utf-8"], ["Accept", "application/json"]],
+    "ctype_form": [["Content-Type", "application/x-www-form-urlencoded"]],
+    "ctype_multipart": [["Content-Type", "multipart/form-data; boundary=xyz"]],
+    "ctype_plain": [["Content-Type", "text/plain"], ["Content-Encoding", "identity"]],
+    "proxy": [["X-Forwarded-For", "127.0.0.1"], ["X-Forwarded-Proto", "https"], ["X-Forwarded-Host", "internal.local"],
+              ["X-Forwarded-Port", "443"], ["X-Real-Ip", "127.0.0.1"], ["Forwarded", "for=127.0.0.1;proto=https"],
+              ["Via", "1.1 gateway"]],
+    "override": [["X-Http-Method-Override", "GET"], ["X-Http-Method", "GET"], ["X-Method-Override", "OPTIONS"],
+                 ["X-Original-Method", "GET"], ["X-Original-Url", "/public"], ["X-Rewrite-Url", "/public"]],
+    "conditional": [["If-None-Match", "*"], ["If-Match", "\"abc\""], ["If-Modified-Since", "Wed, 21 Oct 2015 07:28:00 GMT"],
+                    ["If-Unmodified-Since", "Wed, 21 Oct 2015 07:28:00 GMT"], ["If-Range", "\"abc\""],
+                    ["Range", "bytes=0-0"], ["Expect", "100-continue"]],
+    "authlike": [["Proxy-Authorization", "Bearer " + _TOK], ["X-Authorization", "Bearer " + _TOK], ["X-Auth-Token", _TOK],
+                 ["X-Api-Key", "k"], ["Cookie", "Authorization=Bearer " + _TOK + "; token=" + _TOK],
+                 ["raw:authorization", "Bearer " + _TOK], ["raw:AUTHORIZATION", "Bearer " + _TOK],
+                 ["Www-Authenticate", "Bearer"], ["Authorization-Info", "x"]],
+    "probe": [["User-Agent", "kube-probe/1.29"], ["X-Health-Check", "1"], ["X-Internal", "true"], ["X-Debug", "1"],
+              ["Host", "localhost"], ["Sec-Fetch-Mode", "cors"], ["Sec-Fetch-Site", "same-origin"], ["Te", "trailers"]],
+    # only where the route has no signature option (there X-Content-Security IS the credential)
+    "xcs": [["X-Content-Security", "key=A; secret=AAAA; signature=AAAA; time=1"], ["X-Request-Uri", "/public?x=1"]],
+}
+XH_ALL = [nv for k in XH if k not in ("xcs", "cors_empty", "cors_raw", "preflight", "preflight_null", "origin_only", "acrm_only")
+          for nv in XH[k]]
+
+
+def canon_hdr(name):
+    """the key net/http stores a header under (textproto.CanonicalMIMEHeaderKey for token names; "raw:x" = exactly x)"""
+    if name.startswith("raw:"):
+        return name
+    return "-".join(w[:1].upper() + w[1:].lower() for w in name.split("-"))
+
+
+def method_id(ids, m):
+    """DELETE/GET/POST/PUT (the verified methods, regenerated) = 1..n, the well-known others fixed, the rest interned"""
+    if m in CHECKED:
+        return CHECKED.index(m) + 1
+    return METHOD_ID.get(m) or 100010 + ids("m:" + m)
+
 
 F9 = "F9-content-security-skips-other-methods"
 # the methods the UNCHANGED tree verifies (committed with the known finding; never taken from the tree under test):
@@ -160,7 +223,7 @@ class C18(Property):
             r = {"now": 1000, "auth": "bearer", "header": hs, "payload": pay, "signkey": "s1", "signalg": "HS256"}
             r.update(kw)
             return r
-        return self._enum_cases() + [
+        return self._matrix_cases() + self._enum_cases() + [
             {"kind": "jwt", "secret": "s1", "prev": "s0", "reqs": [
                 jr(), jr(signkey="s0"), jr(now=2000), jr(now=1999),
                 jr(mut=[{"op": "hdr", "s": jd({"alg": "none"})}, {"op": "sigempty"}]),
@@ -179,6 +242,17 @@ class C18(Property):
             # unknown length
             {"kind": "crypt", "req": dict(base, enc=True, chunked=True)},
             cs(enc=True, chunked=True),
+            # seeded/C18-2 by construction: a header correctly signed for an EMPTY body, a chunked body appended to it
+            cs(enc=False, chunked=True, sbody="", body="appended by a man in the middle"),
+            cs(enc=False, chunked=True, sbody="", body="x", method="PUT"),
+            # seeded/C18-8 by construction: a REJECTED token whose payload decodes and has a claim the next, accepted,
+            # token has not: nothing of it may be in the handler's context (the executor looks for earlier tokens' names)
+            {"kind": "jwt", "secret": "s1", "prev": "", "cb": 0, "reqs": [
+                jr(payload=jd({"exp": 2000, "admin": True, "tenant": "evil"}), signkey="wrong-secret"),
+                jr(payload=jd({"exp": 2000, "uid": 7})),
+                jr(payload=jd({"exp": 10, "role": "root"})), jr(payload=jd({"exp": 2000, "uid": 8})),
+                jr(payload=jd({"exp": 2000, "scope": "all"}), mut=[{"op": "hdr", "s": jd({"alg": "none"})}]),
+                jr(payload=jd({"exp": 2000}))]},
             # window edges
             cs(tol=5, toff=5), cs(tol=5, toff=-5), cs(tol=5, toff=6), cs(tol=5, toff=-6),
             # payload sizes across the 32 KiB / 64 KiB / base64-group boundaries, both directions, one Write and pieces
@@ -214,6 +288,127 @@ class C18(Property):
                 {"secret": "s1", "prev": "s0", "req": jr()}, {"secret": "s1", "prev": "s0", "req": jr()},
                 {"secret": "s1", "prev": "s0", "req": jr(now=2000)}, {"secret": "s1", "prev": "s0", "req": jr(signkey="s0", now=2000)}]},
         ]
+
+    # ------------------------------------------------------------------ method x headers x token state, ENUMERATED
+    def _matrix_cases(self):
+        """The gates judged for EVERY HTTP method x the vocabulary of request headers some layer may special-case x
+        token / signature state, by construction in every run (first in the quick tier): through the bare Authorize
+        middleware and TokenParser, through real rest.Server route binding with and without rest.WithCors (routes
+        registered for every method the router accepts, JWT-only / JWT+signature / signature-only groups), through the
+        bare content-security and cryption handlers.  (seeded/C18-10: Authorize lets an OPTIONS request with Origin and
+        Access-Control-Request-Method through before the token is parsed.)"""
+        import random
+        hs = jd({"alg": "HS256", "typ": "JWT"})
+        now = 1000
+
+        def jr(state, method="GET", xh=()):
+            q = {"now": now, "auth": "bearer", "header": hs, "payload": jd({"exp": 2000, "uid": 7, "iss": "me"}), "signkey": "s1",
+                 "signalg": "HS256", "mut": [], "cls": "mx:" + state, "method": method, "xh": [list(x) for x in xh]}
+            if state == "absent":
+                q["auth"] = "missing"
+            elif state == "expired":
+                q["payload"] = jd({"exp": 999, "uid": 7})
+            elif state == "wrong":
+                q["signkey"] = "not-the-secret"
+            elif state == "prev":
+                q["signkey"] = "s0"
+            elif state == "malformed":
+                q["mut"] = [{"op": "rawtoken", "s": "abc.def"}]
+            elif state == "none":
+                q["header"], q["signalg"] = jd({"alg": "none", "typ": "JWT"}), "none"
+            elif state == "empty":
+                q["auth"] = "empty"
+            return q
+        states = ["absent", "valid", "expired", "wrong", "prev", "malformed"]
+        both = XH["websocket"] + XH["sse"]
+        bundles = {"none": [], "preflight": XH["preflight"], "preflight_h": XH["preflight_h"], "preflight_null": XH["preflight_null"],
+                   "origin_only": XH["origin_only"], "acrm_only": XH["acrm_only"], "cors_empty": XH["cors_empty"],
+                   "cors_raw": XH["cors_raw"], "ws+sse": both, "h2c+ctype": XH["h2c"] + XH["ctype_json"] + XH["ctype_multipart"],
+                   "proxy+override": XH["proxy"] + XH["override"], "cond+auth+probe": XH["conditional"] + XH["authlike"] + XH["probe"],
+                   "xcs": XH["xcs"], "all": XH_ALL + XH["preflight"]}
+        out = []
+        # (a) the bare Authorize middleware: OPTIONS with every bundle, every other method with three of them
+        reqs = [jr(st, "OPTIONS", xh) for xh in bundles.values() for st in states]
+        for m in ALL_METHODS:
+            if m != "OPTIONS":
+                reqs += [jr(st, m, bundles[b]) for b in ("none", "preflight_h", "all") for st in states]
+        for i in range(0, len(reqs), 18):
+            out.append({"kind": "jwt", "secret": "s1", "prev": "s0", "cb": 1, "reqs": reqs[i:i + 18]})
+        out.append({"kind": "jwt", "secret": "s1", "prev": "", "cb": 0, "reqs": [
+            jr(st, "OPTIONS", bundles[b]) for b in ("preflight", "preflight_h") for st in ("absent", "expired", "wrong", "malformed", "none", "empty", "valid")]})
+        # (b) one TokenParser
+        out.append({"kind": "tp", "reset": False, "calls": [
+            {"secret": "s1", "prev": "s0", "req": jr(st, m, bundles[b])}
+            for m in ("OPTIONS", "CONNECT") for b in ("preflight_h", "all") for st in ("absent", "valid", "expired", "wrong")]})
+        # (c) a real rest.Server: one route per routable method in a JWT group, a JWT + strict signature group and a
+        #     strict signature group; without and with the CORS router in front
+        rng = random.Random(1810)
+        jnow = 1700000000
+        sec, prev = self.SRV_SECRETS[0], self.SRV_SECRETS[1]
+
+        def sj(state):
+            q = jr(state)
+            q["now"] = jnow
+            q["payload"] = jd({"exp": jnow + (-1 if state == "expired" else 1000), "uid": 7})
+            q["signkey"] = {"wrong": "not-the-secret", "prev": prev}.get(state, sec)
+            return q
+        groups = [
+            {"jwt": {"secret": sec, "prev": prev}, "sig": None, "routes": [[m, "/m/one"] for m in ROUTER_METHODS], "opts": []},
+            {"jwt": {"secret": sec, "prev": ""}, "sig": {"strict": True, "tol": 100, "keys": [{"fp": "fa", "file": "A"}]},
+             "routes": [[m, "/ms/one"] for m in ROUTER_METHODS], "opts": []},
+            {"jwt": None, "sig": {"strict": True, "tol": 100, "keys": [{"fp": "fb", "file": "B"}]},
+             "routes": [[m, "/s/one"] for m in ROUTER_METHODS], "opts": []},
+        ]
+        for cors, bname in (("", "preflight_h"), ("", "all"), ("", "none"), ("all", "preflight_h")):
+            if True:
+                sreqs = []
+                for m in ROUTER_METHODS:
+                    def cs(path, fp, rsa, hdr):
+                        r = self._cs_req(rng, False)
+                        r.update({"method": m, "path": path, "query": "x=1", "toff": 0, "enc": False, "body": "hello", "fp": fp,
+                                  "rsa": rsa, "hdr": hdr, "xh": [list(x) for x in bundles[bname]]})
+                        return r
+                    for st in ("absent", "valid", "expired", "wrong"):
+                        sreqs.append({"tgt": 0, "donor": 0, "j": sj(st), "cs": cs("/m/one", "fa", "A", "missing"), "clean": False})
+                    sreqs.append({"tgt": 1, "donor": 1, "j": sj("absent"), "cs": cs("/ms/one", "fa", "A", "normal"), "clean": False})
+                    sreqs.append({"tgt": 1, "donor": 1, "j": sj("valid"), "cs": cs("/ms/one", "fa", "A", "missing"), "clean": False})
+                    sreqs.append({"tgt": 2, "donor": 2, "j": None, "cs": cs("/s/one", "fb", "B", "nosig"), "clean": False})
+                    if m in ("POST", "GET"):
+                        # seeded/C18-3 by construction: correctly signed with the OTHER signature group's fingerprint
+                        # and key; and with this group's own
+                        sreqs.append({"tgt": 2, "donor": 1, "j": None, "cs": cs("/s/one", "fa", "A", "normal"), "clean": False})
+                        sreqs.append({"tgt": 1, "donor": 2, "j": sj("valid"), "cs": cs("/ms/one", "fb", "B", "normal"), "clean": False})
+                        sreqs.append({"tgt": 2, "donor": 2, "j": None, "cs": cs("/s/one", "fb", "B", "normal"), "clean": False})
+                out.append({"kind": "srv", "parallel": False, "outer": bname == "all", "cors": cors,
+                            "sgroups": json.loads(json.dumps(groups)), "sreqs": sreqs, "uacb": True, "uscb": False,
+                            "usemw": bname != "none", "natives": False})
+        # (d) the single-configuration engine cases (prefixes, public siblings of the protected routes)
+        k = 0
+        for m in ("OPTIONS", "HEAD", "PATCH", "GET"):
+            for cors in ("", "all"):
+                for tgt in ("jwt", "both"):
+                    for st in ("absent", "valid"):
+                        k += 1
+                        out.append(self._eng_case(random.Random(1810 + k), force={
+                            "method": m, "cors": cors, "tgt": tgt, "xh": bundles["preflight_h"], "jstate": st}))
+        for st in ("expired", "wrong", "malformed", "none"):
+            k += 1
+            out.append(self._eng_case(random.Random(1810 + k), force={
+                "method": "OPTIONS", "cors": "", "tgt": "jwt", "xh": bundles["preflight"], "jstate": st}))
+        # (e) the bare content-security handler (verified methods) and (f) the bare cryption handler (every method)
+        k16 = "0123456789abcdef"
+        base = {"path": "/a", "query": "x=1", "body": "hello", "aeskey": k16, "fp": "A", "rsa": "A", "resp": "world"}
+        for m in CHECKED:
+            for bname in ("preflight_h", "all"):
+                for hdr, sigmut in (("normal", ""), ("missing", ""), ("normal", "flip")):
+                    r = dict(base, method=m, hdr=hdr, xh=[list(x) for x in bundles[bname]])
+                    if sigmut:
+                        r["sigmut"] = sigmut
+                    out.append({"kind": "cs", "strict": True, "tol": 100, "keys": ["A"], "req": r, "muts": ["mx"]})
+        for m in ALL_METHODS:
+            out.append({"kind": "crypt", "req": dict(base, method=m, hdr="normal", enc=True, xh=[list(x) for x in bundles["all"]]),
+                        "muts": ["mx"]})
+        return out
 
     # ------------------------------------------------------------------ encoding-level edits, ENUMERATED
     INS = ["\r", "\n", " ", "\t", "\x00", "==", "xyz"]
@@ -470,6 +665,10 @@ class C18(Property):
             q["now"] = now + rng.choice([1, 2, 59, 60, 61, 3600, 10 ** 6, 10 ** 6 + 1])
         elif cls == "earlier":
             q["now"] = now - rng.choice([1, 2, 60, 61, 3601])
+        # the rest of the request (bare middleware / TokenParser: every method token; routes: see eng / srv)
+        if rng.random() < 0.55:
+            q["method"] = rng.choice(ALL_METHODS + ["OPTIONS", "OPTIONS"])
+        q["xh"] = self._xh(rng)
         if claims is not None and cls != "dup_claim":
             for k, txt in raw.items():
                 claims[k] = "@@RAW-%s@@" % k
@@ -478,6 +677,23 @@ class C18(Property):
                 pl = pl.replace('"@@RAW-%s@@"' % k, txt)
             q["payload"] = pl
         return q
+
+    def _xh(self, rng, sig=False):
+        """other header fields for one request: nothing (half of the time), one or two bundles of the vocabulary, a random
+        handful of single fields, or everything at once; [sig]: the route verifies X-Content-Security, which is then left alone"""
+        x = rng.random()
+        names = [k for k in XH if not (sig and k == "xcs")]
+        if x < 0.45:
+            return []
+        if x < 0.75:
+            out = []
+            for k in rng.sample(names, rng.choice([1, 1, 2])):
+                out += XH[k]
+            return out
+        if x < 0.9:
+            pool = [nv for k in names for nv in XH[k]]
+            return rng.sample(pool, rng.randint(1, 6))
+        return list(XH_ALL) + (XH["preflight"] if rng.random() < 0.5 else [])
 
     def _jwt_case(self, rng):
         secret = rng.choice(["s1", "secret-key-0123456789", "k" * 40, "pässwörd"])
@@ -581,6 +797,9 @@ class C18(Property):
         if r["method"] in ("GET", "DELETE") and rng.random() < 0.5:
             r["body"] = ""
             r["enc"] = crypt
+        if crypt and rng.random() < 0.5:
+            r["method"] = rng.choice(ALL_METHODS)        # the cryption handler must not care
+        r["xh"] = self._xh(rng, sig=True)
         return r
 
     CS_MUTS = ["none", "none", "none", "none", "toff_edge", "toff_out", "toff_in", "tsraw", "smethod", "spath", "squery", "sbody",
@@ -793,7 +1012,7 @@ class C18(Property):
             c["reqs"] = [self._jreq(rng, sec, c["prev"], now)]
         return c
 
-    def _eng_case(self, rng):
+    def _eng_case(self, rng, force=None):
         """a real rest.Server: route groups with/without WithJwt / WithJwtTransition / WithSignature / WithPrefix,
         public siblings of protected routes, one generated request to one of the routes"""
         c = self._cs_case(rng, False)
@@ -803,10 +1022,14 @@ class C18(Property):
         r = c["req"]
         if r.get("clenadd", 0) > 10 ** 6:
             r.pop("clenadd")                     # the engine's max-bytes middleware (413) sits in front of the gates
-        if r["method"] in ("get", "TRACE"):      # the router only registers the 7 standard methods
-            r["method"] = "PATCH"
+        if r["method"] not in ROUTER_METHODS:    # the router only registers the 7 standard methods
+            r["method"] = rng.choice(["PATCH", "HEAD", "OPTIONS"])
+        if force and force.get("method"):
+            r["method"] = force["method"]
+        elif rng.random() < 0.25:
+            r["method"] = rng.choice(["OPTIONS", "OPTIONS", "HEAD", "PATCH"])
         m = r["method"]
-        other = rng.choice([x for x in ["GET", "POST", "PUT", "DELETE", "PATCH"] if x != m])
+        other = rng.choice([x for x in ROUTER_METHODS if x != m])
         groups = [
             {"jwt": True, "sig": False, "prefix": "", "routes": [[m, "/p/one"], [m, "/p/two"], [m, "/p/:id/x"]]},
             {"jwt": False, "sig": True, "prefix": "", "routes": [[m, "/s/one"], [m, "/s/two"]]},
@@ -819,7 +1042,15 @@ class C18(Property):
         rng.shuffle(groups)
         gi = rng.randrange(len(groups))
         ri = rng.randrange(len(groups[gi]["routes"]))
+        if force and force.get("tgt"):
+            want = {"jwt": (True, False), "sig": (False, True), "both": (True, True), "pub": (False, False)}[force["tgt"]]
+            gi = min(i for i, g in enumerate(groups) if (g["jwt"], g["sig"]) == want)
+            ri = 0
         c["groups"], c["target"] = groups, [gi, ri]
+        # rest.WithCors in front of the router or not: OPTIONS is an ordinary route method without it
+        c["cors"] = rng.choice(["", "", "", "all", "origin", "headers"])
+        if force is not None:
+            c["cors"] = force.get("cors", "")
         g = groups[gi]
         mth, pth = g["routes"][ri]
         pth = pth.replace(":id", "42")
@@ -850,6 +1081,25 @@ class C18(Property):
         if not g["sig"] and rng.random() < 0.6:
             r["hdr"] = "missing"
             r["enc"] = False
+        r["xh"] = self._xh(rng, sig=True)
+        if force is not None:
+            r["xh"] = list(force.get("xh", []))
+            if force.get("jstate") is not None:
+                st = force["jstate"]
+                q = {"now": now, "auth": "bearer", "header": jd({"alg": "HS256", "typ": "JWT"}),
+                     "payload": jd({"exp": now + (-1 if st == "expired" else 1000), "uid": 7}), "signkey": c["secret"],
+                     "signalg": "HS256", "mut": [], "cls": "mx:" + st}
+                if st == "absent":
+                    q["auth"] = "missing"
+                elif st == "wrong":
+                    q["signkey"] = "not-the-secret"
+                elif st == "malformed":
+                    q["mut"] = [{"op": "rawtoken", "s": "abc.def"}]
+                elif st == "none":
+                    q["header"], q["signalg"] = jd({"alg": "none", "typ": "JWT"}), "none"
+                c["reqs"] = [q]
+            if force.get("nosig"):
+                r["hdr"], r["enc"] = "missing", False
         return c
 
     HDR_ATOMS = ["key", "secret", "signature", "time", "type", "=", "=", ";", ";", ";", " ", " ", "\t", "\n", "\r", "\x0b", "\x0c",
@@ -943,6 +1193,7 @@ class C18(Property):
     def _jwt_parts(self, secret, prev, reqs, jobs):
         """returns (jcfg term, mactab term, [(now, cred term)], [jobs term])"""
         keys, vals, inputs, tags = Intern(10), Intern(1), Intern(1), Intern(1)
+        self._hids = Intern(1)
         prev_id = None if prev == "" else (1 if prev == secret else 2)
         cfg = "(mkJcfg 1 %s)" % copt(prev_id)
         tab, rq, ob = [], [], []
@@ -958,7 +1209,10 @@ class C18(Property):
                     ent = "((%d, 2, %d), %d)" % (a, iid, tags("t:" + v["tagprev"]))
                     if ent not in tab:
                         tab.append(ent)
-            rq.append("(%s, %s)" % (cz(q["now"]), cred))
+            hids = self._hids if getattr(self, "_hids", None) is not None else Intern(1)
+            hdrs = clist(["(%d, %d)" % (HDR_ID.get(canon_hdr(n)) or 10 + hids("n:" + canon_hdr(n)), 0 if v_ == "" else hids("v:" + v_))
+                          for n, v_ in (q.get("xh") or [])])
+            rq.append((cz(q["now"]), cred, cz(method_id(hids, q.get("method") or "GET")), hdrs))
             ob.append("(mkJobs %s %s %s %s %s %s)" % (cbool(o["ran"]), cz(o["status"]), self._claims(o["ctx"], keys, vals),
                                                      cbool(bool(o.get("panic"))), cz(o.get("uerr", -9)),
                                                      cz(o.get("cbstatus", 0))))
@@ -986,7 +1240,7 @@ class C18(Property):
     def coq_case(self, case, obs):
         if case["kind"] == "jwt":
             cfg, tab, rq, ob = self._jwt_parts(case["secret"], case["prev"], case["reqs"], obs["jwt"])
-            return "CJwt %s %s %s %s" % (cfg, tab, clist(rq), clist(ob))
+            return "CJwt %s %s %s %s" % (cfg, tab, clist(["(mkHreq %s %s %s %s)" % (m, h, n, c) for n, c, m, h in rq]), clist(ob))
         if case["kind"] == "hdr":
             h = obs["hdr"][0]
             pairs = clist(["(%s, %s)" % (hexbytes(k), hexbytes(v)) for k, v in sorted(h["attrs"].items())])
@@ -1019,7 +1273,7 @@ class C18(Property):
         has_jwt, has_sig, crypt = self._opts(case)
         codeobs = (case["kind"] == "cs" and not has_jwt) or (case["kind"] == "eng" and bool(case.get("uscb")))
         ids, tagid, keyid = Intern(1), Intern(1), Intern(1)
-        mid = CHECKED.index(q["method"]) + 1 if q["method"] in CHECKED else 5 + ids("m:" + q["method"])
+        mid = method_id(ids, q["method"])
         pid, qid = ids("p:" + v["path"]), ids("q:" + v["query"])
         tsid, dig = ids("t:" + v["tsstr"]), ids("d:" + v["digest"])
         kid = keyid(v["key"])
@@ -1046,7 +1300,7 @@ class C18(Property):
         jwt = "None"
         if has_jwt:
             cfg, tab, rq, _ = self._jwt_parts(case["secret"], case["prev"], case["reqs"][:1], [self._chain_view(case, o)])
-            now_cred = rq[0][1:-1]
+            now_cred = "%s, %s" % (rq[0][0], rq[0][1])
             jwt = "(Some (%s, %s, %s))" % (cfg, tab, now_cred)
 
         def tabterm(d):
@@ -1060,11 +1314,12 @@ class C18(Property):
             copt(None if o.get("respplain") is None else hexbytes(o["respplain"])),
             cbool(bool(o.get("panic"))), res_term(o["codecenc"]) or "Err", res_term(o["codecdec"]) or "Err",
             copt(raw_dec), cbool(bool(o.get("hdrout"))), cbool(o.get("codecx", "") == ""), cbool(bool(mwran)))
-        return "mkCs %s %s %s %s %s %s %s %s %s %s %s %d %s %s %s %d %s %s %s %s %s %s %s" % (
+        return "mkCs %s %s %s %s %s %s %s %s %s %s %s %d %s %s %s %d %s %s %s %s %s %s %s %s" % (
             cbool(crypt), cbool(has_sig), cbool(codeobs), jwt, cbool(bool(case.get("strict"))), decs, cz(case.get("tol", 0)), cz(v["now"]),
             cz(case.get("limit") or MAXBYTES), req, strbytes(q["resp"]), 0, rsa, rsakeys, clist(tags), dig,
             cbool(v["aesok"]), tabterm(v["etab"]), tabterm(v["dtab"]),
-            copt(None if v["b64"] is None else hexbytes(v["b64"])), strbytes(q["body"]), cbool(honest), ob)
+            copt(None if v["b64"] is None else hexbytes(v["b64"])), strbytes(q["body"]), cbool(honest),
+            cbool(bool(case.get("cors")) and bool(o.get("corson"))), ob)
 
     KFILE = {"A": 1, "B": 2, "C": 3, "D": 4, "missing": 5, "badpem": 6, "badkey": 7}
 
@@ -1087,7 +1342,7 @@ class C18(Property):
         return False
 
     def _mid(self, ids, m):
-        return CHECKED.index(m) + 1 if m in CHECKED else 5 + ids("m:" + m)
+        return method_id(ids, m)
 
     def _srv_term(self, case, so):
         ids, tg, kid, scid, fpid = Intern(1), Intern(1), Intern(1), Intern(1), Intern(1)
@@ -1165,8 +1420,9 @@ class C18(Property):
             reqs.append("(%s, %d%%nat, %s)" % (sreq, sq["tgt"], ob))
         tabs = "(mkTabs %s %s %s %s %s %s %s %s)" % (clist(mac), clist(rsa), clist(cmac), clist(sha), clist(aes),
                                                     clist(et), clist(dt), clist(b64))
-        return "mkSrv %s %s %s %s %s %s" % (cz(MAXBYTES), clist(["1", "2", "3", "4"]), clist(groups), tabs,
-                                            cbool(so["bindok"]), clist(reqs))
+        return "mkSrv %s %s %s %s %s %s %s" % (cz(MAXBYTES), clist(["1", "2", "3", "4"]), clist(groups), tabs,
+                                               cbool(so["bindok"]), cbool(bool(case.get("cors")) and bool(so.get("corson"))),
+                                               clist(reqs))
 
     SRV_SECRETS = ["secret-one-0001", "secret-two-0002", "secret-three-03"]
     SRV_MUTS = ["none", "none", "none", "text_edit", "text_edit", "sbody_tail", "sbody_prefix", "ts_boundary", "ts_boundary", "toff_edge", "toff_out", "tsraw", "smethod", "spath", "squery", "sbody", "stoff", "skey",
@@ -1194,10 +1450,11 @@ class C18(Property):
             if kind in ("sig", "both", "sig_ns"):
                 ks = [{"fp": rng.choice(fps), "file": rng.choice(files)} for _ in range(rng.choice([1, 1, 1, 2, 2, 3]))]
                 g["sig"] = {"strict": kind != "sig_ns" and rng.random() < 0.92, "tol": rng.choice([0, 1, 5, 100, 3600]), "keys": ks}
-            m = rng.choice(CHECKED)
+            mpool = CHECKED * 3 + ["PATCH", "HEAD", "OPTIONS", "OPTIONS"]
+            m = rng.choice(mpool)
             g["routes"] = [[m, "/g%d/one" % gi]]
             if rng.random() < 0.5:
-                g["routes"].append([rng.choice(CHECKED), "/g%d/two" % gi])
+                g["routes"].append([rng.choice(mpool), "/g%d/two" % gi])
             if rng.random() < 0.2:
                 g["opts"] = rng.sample(["timeout", "maxbytes"], rng.randint(1, 2))
             groups.append(g)
@@ -1230,7 +1487,7 @@ class C18(Property):
             ti = min(i for i, g in enumerate(groups) if [m, pth] in g["routes"])
             tgt = groups[ti]
             r = self._cs_req(rng, False)
-            r.update({"method": m, "path": pth, "toff": 0, "enc": rng.random() < p_enc})
+            r.update({"method": m, "path": pth, "toff": 0, "enc": rng.random() < p_enc, "xh": self._xh(rng, sig=True)})
             if parallel and len(r["body"]) < 9:
                 r["body"] = "".join(rng.choice("abcdefghij0123456789") for _ in range(rng.choice([9, 16, 33, 100])))
             if m in ("GET", "DELETE") and rng.random() < 0.6 and not parallel:
@@ -1310,7 +1567,7 @@ class C18(Property):
             for x in reqs:
                 if x["j"] is not None:
                     x["j"]["now"] = now              # one JWT clock for the whole burst
-        return {"kind": "srv", "parallel": parallel, "outer": rng.random() < 0.3,
+        return {"kind": "srv", "parallel": parallel, "outer": rng.random() < 0.3, "cors": rng.choice(["", "", "", "all", "origin"]),
                 "sgroups": groups, "sreqs": reqs, "uacb": rng.random() < 0.6, "uscb": rng.random() < 0.3,
                 "usemw": rng.random() < 0.5, "natives": rng.random() < 0.3}
 
@@ -1475,11 +1732,25 @@ class C18(Property):
             return res[:60]
         if case["kind"] == "jwt":
             rs = case["reqs"]
-            for i in range(len(rs)):
-                if len(rs) > 1:
-                    c = dict(case)
-                    c["reqs"] = rs[:i] + rs[i + 1:]
-                    res.append(c)
+            if len(rs) > 1:
+                for i in range(len(rs)):                 # a single request is the usual minimum
+                    res.append(dict(case, reqs=[rs[i]]))
+                res.append(dict(case, reqs=rs[:len(rs) // 2]))
+                res.append(dict(case, reqs=rs[len(rs) // 2:]))
+                for i in range(len(rs)):
+                    res.append(dict(case, reqs=rs[:i] + rs[i + 1:]))
+            for i, q in enumerate(rs[:4]):
+                # the rest of the request: fewer other headers, the plain method
+                xh = q.get("xh") or []
+                cands = []
+                if len(xh) > 1:
+                    cands += [xh[:len(xh) // 2], xh[len(xh) // 2:]] + [xh[:j] + xh[j + 1:] for j in range(min(len(xh), 12))]
+                elif xh:
+                    cands.append([])
+                for x in cands:
+                    res.append(dict(case, reqs=rs[:i] + [dict(q, xh=x)] + rs[i + 1:]))
+                if q.get("method") not in (None, "", "GET"):
+                    res.append(dict(case, reqs=rs[:i] + [dict(q, method="GET")] + rs[i + 1:]))
             return res
         if case["kind"] == "big":
             g = case["big"]
